@@ -14,7 +14,7 @@
    The wiring the model assumes is checked on the list regenerated from core.Wire (C01_wiring). *)
 From Coq Require Import List Arith Bool.
 From Charon Require Import Common.Quorum Flow.Pipeline Flow.PipelineFacts Flow.WiringCheck Flow.WiringFacts gen.Wiring
-  Flow.AppWiringCheck Flow.AppWiringFacts gen.AppWiring.
+  Flow.AppWiringCheck Flow.AppWiringFacts Flow.AppWiringSharesFacts gen.AppWiring.
 Import ListNotations.
 
 (* 2t - n > f for t = ceil(2n/3), f = floor((n-1)/3), every n >= 1; and in general. *)
@@ -90,6 +90,12 @@ Print Assumptions C01_wiring.
 Theorem C01_app_wiring : app_wiring_check app_params app_wire_args app_wire_opts app_defs app_hooks = true.
 Proof. exact app_wiring_ok. Qed.
 Print Assumptions C01_app_wiring.
+
+(* ... and the public-share maps given to the validator API and to the peer verifier have exactly the
+   entries i+1 -> PubShares[i] (share indices 1..n; no entry for an out-of-range index such as 0). *)
+Theorem C01_app_pubshares : pubshares_check app_pubshares_sites = true.
+Proof. exact app_pubshares_ok. Qed.
+Print Assumptions C01_app_pubshares.
 
 (* Non-vacuity: a trace with equivocation by the Byzantine share, a duplicate delivery after
    aggregation, garbage, and an equivocating client is accepted and passes the monitor. *)
